@@ -48,7 +48,7 @@ def sequences(ctx):
     for pv in (3, 4, 5, 65, 66):
         for pks in (None, 1):
             for cks in (None, 1, 2):
-                for known in ([], [[7, 3, pks]], [[7, 4, 2]]):
+                for known in ([], [[7, 3, pks]], [[7, 4, 2]], [[7, 3, pks], [8, 3, 1], [6, 3, 2]]):   # last: other cached ids
                     for has_ps in (True, False):
                         if not has_ps and not known and pv != 4:
                             continue
@@ -82,6 +82,37 @@ def sequences(ctx):
     return items
 
 
+def concurrent(ctx):
+    """two executions of one request in flight (speculative), both in the re-prepare phase: every pair of answers to the two
+    PREPAREs, in both orders; once one of them failed the request, the other must not cause anything to be sent"""
+    items = []
+    answers = [[2, 7], [2, 8], [3, 7, 41], [3, 8, 41], [3, 3, 41], [5, 41], [0], [7]]
+    for a in answers:
+        for b in answers:
+            for order in (0, 1):
+                for known in ([], [[7, 3, None], [8, 3, 1]]):
+                    sc = base(n=3, plan=[1, 0, 2], pools=[6, 6, 6], idem=True, spec=[True, 1], known=known)
+                    run = H.Run(sc)
+                    orc = K.Oracle(sc, run, PID)
+                    obs = []
+                    first, second = (2, 3) if order == 0 else (3, 2)
+                    ra = a
+                    rb = [b[0], b[1], 42] if b[0] == 3 else ([5, 42] if b[0] == 5 else b)      # distinct response tags
+                    ops = [['start'], ['spec'], ['resp', 0, [4, 7, 10]], ['resp', 1, [4, 7, 11]], ['run', 0], ['run', 0],
+                           ['resp', first, ra], ['run', 0], ['resp', second, rb], ['run', 0]]
+                    for op in ops:
+                        if op[0] == 'run' and not run.env.queue:
+                            continue
+                        if op[0] == 'resp' and op[1] not in run.open_attempts():
+                            continue
+                        if op[0] == 'spec' and not run.spec_armed():
+                            continue
+                        sc['ops'].append(op)
+                        obs.append(orc.step(len(sc['ops']) - 1, op))
+                    items.append((sc, obs, orc.bad, {'nontrivial': True, 'sample': len(items) == 50}))
+    return items
+
+
 def randoms(ctx, count):
     items = []
     for i in range(count):
@@ -107,6 +138,9 @@ def run(ctx):
     sq = sequences(ctx)
     items += sq
     ctx.count('source', 'sequences_around_unprepared', len(sq))
+    cc = concurrent(ctx)
+    items += cc
+    ctx.count('source', 'two_concurrent_reprepares', len(cc))
     rd = randoms(ctx, int((700 if ctx.tier == 'quick' else 8000) * K.SCALE))
     items += rd
     ctx.count('source', 'random_history', len(rd))
@@ -117,7 +151,8 @@ def run(ctx):
                 'statement known to cluster._prepared_statements (same / different text / absent) x future carries the prepared '
                 'statement? x 15 answers to the PREPARE (same id, larger id, smaller id, rows, void, 5 server/connection errors, UNPREPARED, two '
                 'other errors, other exception, junk) x pool state when the task runs x answer to the re-sent request (complete in the '
-                'thorough tier, 45% sample of the non-PREPARED answers in quick); plus random legal histories biased to UNPREPARED. '
+                'thorough tier, 45% sample of the non-PREPARED answers in quick); plus two concurrent re-prepares (speculative execution) x all pairs of 8 answers x both orders; cluster cache with other '
+                'statements\' ids (mismatch id = another cached id); plus random legal histories biased to UNPREPARED. '
                 'Non-trivial = at least 4 operations (2 for random); distinct = distinct scenario incl. history.')
     K.evaluate(ctx, PID, items)
     ctx.trust('fake session / pools / connections / executor queue (lib/vf/futb_harness.py)',
